@@ -11,13 +11,15 @@ def gen_cfg(constants, invariants=("Emit",)):
 # ------------------------------------------------------------------------------------------------ C01
 def c01(run):
     run.rule = ("GEN: TLC enumerates expression cases (types scope: every unary/binary/boolean operator over the full literal pool "
-                "incl. hex/octal/exponent/escaped spellings, carried as literals, variables and fields; shape scope: all two-level "
-                "operator trees; sim: seeded random deep trees) with the meaning BclSem gives them; each is run through bcl.Interpret. "
+                "incl. hex/octal/exponent/escaped spellings, carried as literals, variables and fields; prec scope: every ordered pair of operators in both "
+                "groupings and with each unary form inside/outside, over 6 leaf triples; shape scope (thorough): all two-level operator trees over all 12 binary operators; sim: seeded random deep trees) with the meaning BclSem gives them; each is run through bcl.Interpret. "
                 "Non-trivial = at least two operators, or one binary operator whose operands are of different kinds; distinct by source text.")
     run.assumptions += ["values outside the exactly computable domain (|int| >= 2^30, non-dyadic or long floats, exponent-form prints) are OOD: skipped and counted, never judged",
                         "runtime-error wording is not pinned by C01: a different text on a still-failing program is DRIFT"]
     run.gen_replay("Gen_Expr", gen_cfg(dict(Scope="types", ShapeLeaves=3)), ["replay-prog"], "C01:types")
-    run.gen_replay("Gen_Expr", gen_cfg(dict(Scope="shape", ShapeLeaves=3 if run.quick else 4)), ["replay-prog"], "C01:shape")
+    run.gen_replay("Gen_Expr", gen_cfg(dict(Scope="prec", ShapeLeaves=3)), ["replay-prog"], "C01:prec")
+    if not run.quick:
+        run.gen_replay("Gen_Expr", gen_cfg(dict(Scope="shape", ShapeLeaves=3)), ["replay-prog"], "C01:shape")
     n = 20000 if run.quick else 300000
     run.gen_replay("Gen_Expr", gen_cfg(dict(Scope="sim", ShapeLeaves=3)), ["replay-prog"], "C01:sim",
                    simulate=10 ** 9, depth=8 if run.quick else 12, workers=1, max_cases=n)
@@ -26,6 +28,48 @@ def c01(run):
 
 
 VMC = dict(StackSize=1024, BlockStackSize=16)
+
+
+def chk_comp(run, stage, n, violations, case_sources=(), stride=1, max_cases=1500, seed_off=0):
+    """Translation validation of the real compiler against BclLex + BclCompiler (Chk_Comp). `violations` = the verdicts that
+    contradict the property being checked; the other disagreements are finer than any property and reported as DRIFT."""
+    import os, subprocess, re
+    args = ["drive-comp", "--n", str(n), "--seed", str(run.seed * 10 + seed_off), "--max", str(max_cases), "--stride", str(stride)]
+    inp = None
+    if case_sources:
+        inp = os.path.join(run.scratch, stage.replace(":", "_") + ".cases")
+        with open(inp, "w") as f:
+            for mod, c, kw in case_sources:
+                p = subprocess.Popen(["cat"], stdin=subprocess.PIPE, stdout=f, text=True)
+                run.tlc(mod, c, consumer=p, label=stage + ":gen:" + mod, **kw)
+                p.stdin.close()
+                p.wait()
+    batch = os.path.join(run.scratch, stage.replace(":", "_") + ".ndjson")
+    s = run.vh(args + ["--out", batch], stage + ":drive", input_path=inp)
+    run.traces -= s.get("judged", 0)
+    r = run.tlc("Chk_Comp", cfg(constants=dict(LocalsMax=1024, JumpMax=65535), invariants=("Tally",)), workers=1,
+                files={"progs.ndjson": "@" + batch}, label=stage + ":tlc", timeout=1800)
+    if not r["ok"]:
+        raise Inconclusive("Chk_Comp failed: %s" % r.get("violated"))
+    lines = open(batch).read().splitlines()
+    tally = {}
+    for m in re.finditer(r'<<"VERDICT", (\d+), "([a-z-]+)">>', r["text"]):
+        k, v = int(m.group(1)), m.group(2)
+        tally[v] = tally.get(v, 0) + 1
+        if v in ("ood", "ok-accepted", "ok-rejected"):
+            continue
+        rec = json.loads(lines[k - 1])
+        if v in violations:
+            if sum(1 for x in run.violations if x.get("shape") == "comp:" + v) < 5:
+                run.violations.append(dict(why="the real compiler and the specification's lexer + compiler machine disagree: " + v, shape="comp:" + v,
+                                           case=dict(fam="comp", src=rec.get("text")), observed=dict(ok=rec.get("ok"), diags=rec.get("diags")), confirmed=True, stage=stage))
+        else:
+            run.drift.append(dict(stage=stage, kind=v, count=1))
+    run.traces += tally.get("ok-accepted", 0) + tally.get("ok-rejected", 0)
+    run.extra.setdefault("chk_comp", {})[stage] = tally
+    if len(tally) == 0:
+        raise Inconclusive("Chk_Comp judged nothing")
+    return tally
 
 
 def tv_vm(run, stage, n, seed_off=0):
@@ -58,7 +102,7 @@ def c02(run):
 
 def c03(run):
     run.rule = ("GEN: all sequences of <= N toplevel items (N=2 quick, 3 thorough) over named/unnamed blocks of two types with "
-                "16 body shapes (fields, re-assignment, TYPE/NAME, variables, nested blocks with colliding keys, a failing statement); "
+                "22 body shapes (incl. empty children followed by non-empty siblings and a field preceding an unnamed child of the same key) (fields, re-assignment, TYPE/NAME, variables, nested blocks with colliding keys, a failing statement); "
                 "compared: the []Block tree incl. Go dynamic types and the blocks returned with a runtime error. "
                 "Non-trivial = at least two block definitions; distinct by source text.")
     run.assumptions += ["programs never read a child block as a value nor assign a field named like an existing child key (undefined by the property)"]
@@ -74,6 +118,7 @@ def c04(run):
                 "(every selector incl. an unknown one x every target incl. an unknown one); compared: binding kind and blocks, "
                 "warning count, error class. Non-trivial = at least one bind and one block; distinct by source text.")
     run.gen_replay("Gen_Prog", gen_cfg(dict(Scope="bind", MaxItems=3 if run.quick else 4)), ["replay-prog"], "C04:bind")
+    run.gen_replay("Gen_Prog", gen_cfg(dict(Scope="bindmany", MaxItems=5 if run.quick else 6)), ["replay-prog"], "C04:bindmany")
     tv_vm(run, "C04:vm", 500 if run.quick else 5000, seed_off=4)
     run.exhaustive = True
 
@@ -92,6 +137,9 @@ def c17(run):
     run.gen_replay("Gen_Gram", gen_cfg(dict(Scope="viable", MaxLen=40)), ["replay-gram"], "C17:sim",
                    simulate=10 ** 9, depth=42, workers=1, max_cases=20000 if q else 400000)
     run.gen_replay("Gen_Gram", gen_cfg(dict(Scope="recover", MaxLen=3 if q else 4), invariants=("EmitR", "GoodOk")), ["replay-gram"], "C17:recover")
+    run.gen_replay("Gen_Gram", gen_cfg(dict(Scope="assign", MaxLen=1), invariants=("Emit", "AsgOk")), ["replay-gram"], "C17:assign")
+    chk_comp(run, "C17:comp", 1200 if q else 12000, ("accept-mismatch",),
+             case_sources=[("Gen_Gram", gen_cfg(dict(Scope="assign", MaxLen=1)), {})], max_cases=4000)
     run.exhaustive = False
 
 
@@ -169,7 +217,7 @@ def c07(run):
 
 
 # ------------------------------------------------------------------------------------------------ C10 / C14 (real dumps into TLC)
-def real_dumps(run, stage, sources, max_n, stride=1):
+def real_dumps(run, stage, sources, max_n, stride=1, maxlen=1500):
     """sources: list of (module, cfg, simulate-kwargs). Real-compiler dumps of the generated programs -> dumps.ndjson."""
     import os, subprocess
     cases = os.path.join(run.scratch, stage.replace(":", "_") + ".cases")
@@ -182,7 +230,7 @@ def real_dumps(run, stage, sources, max_n, stride=1):
             if not r["ok"]:
                 raise Inconclusive("generator failed in " + stage)
     dumps = os.path.join(run.scratch, stage.replace(":", "_") + ".ndjson")
-    s = run.vh(["mkdumps", "--out", dumps, "--max", str(max_n), "--stride", str(stride)], stage + ":dumps", input_path=cases)
+    s = run.vh(["mkdumps", "--out", dumps, "--max", str(max_n), "--stride", str(stride), "--maxlen", str(maxlen)], stage + ":dumps", input_path=cases)
     run.traces -= s.get("judged", 0)   # counted when TLC has validated them
     n = (s.get("extra") or {}).get("dumps", 0)
     if n == 0:
@@ -213,7 +261,8 @@ def tlc_on_dumps(run, stage, dumps, n, invariants, view=True):
 
 def dump_sources(run):
     q = run.quick
-    return [("Gen_Expr", gen_cfg(dict(Scope="types", ShapeLeaves=3)), {}),
+    return [("Gen_Total", cfg(constants=dict(Scope="varscale", MaxLen=1), invariants=("Emit",)), {}),
+            ("Gen_Expr", gen_cfg(dict(Scope="types", ShapeLeaves=3)), {}),
             ("Gen_Prog", gen_cfg(dict(Scope="bind", MaxItems=3)), {}),
             ("Gen_Prog", gen_cfg(dict(Scope="blocks", MaxItems=2)), {}),
             ("Gen_Expr", gen_cfg(dict(Scope="sim", ShapeLeaves=3)), dict(simulate=10 ** 9, depth=14, workers=1, max_cases=30000 if q else 200000))]
@@ -224,8 +273,14 @@ def c10(run):
                 "expression trees with and/or chains) are decoded by BclFormat and explored by the abstract machine of BclISA along both successors of every JFALSE; "
                 "invariants: exact tiling, RET last, operand kinds and ranges, live slots, jumps on boundaries, balanced blocks, depth >= what each instruction needs, "
                 "0 at RET, and (Unique) the same depth on every path into an offset. Non-trivial = every accepted program (distinct by source).")
-    dumps, n = real_dumps(run, "C10:real", dump_sources(run), 2500 if run.quick else 20000, stride=7 if run.quick else 3)
+    # programs whose slot numbers, POPN counts and constant indices cross 240/241 and 255/256 (all of them, no stride)
+    d0, n0 = real_dumps(run, "C10:scale", dump_sources(run)[:1], 100, stride=1, maxlen=20000)
+    tlc_on_dumps(run, "C10:scale-paths", d0, n0, ("WellFormed", "Unique"))
+    dumps, n = real_dumps(run, "C10:real", dump_sources(run)[1:], 2500 if run.quick else 20000, stride=7 if run.quick else 3)
     tlc_on_dumps(run, "C10:paths", dumps, n, ("WellFormed", "Unique"))
+    # the jump-distance limit: beyond 65535 bytes the compiler must reject (a wrapped operand would break the invariants above);
+    # dumps of that size are not fed to TLC, the closed-form expectation of Gen_Total is replayed instead
+    run.gen_replay("Gen_Total", cfg(constants=dict(Scope="scale", MaxLen=1), invariants=("Emit",)), ["replay-total"], "C10:limits")
     run.extra["programs"] = n
     run.exhaustive = False
 
@@ -284,13 +339,13 @@ def c11(run):
     run.rule = ("MC: BclPipeline (reader, lexer, parser, caller; rendezvous and buffered channels; done; deferred Close) over every reader script of <= R reads "
                 "(27 read results: no data / data with 0..2 tokens, a syntax error, a lexical failure; nil / EOF / error) under all interleavings with weak fairness per action: "
                 "Returns, Quiesces with Close exactly once, lexer exits, <= 2 reads after a lexical failure, read error preferred (R=2 quick, 3 thorough). "
-                "GEN: every script with the set of return classes over all schedules; the real ParseFile / InterpretFile / UnmarshalFile run on a FileInput playing the "
+                "GEN: every script of <= 3 reads with the set of return classes over all schedules (a single class for each: the design is outcome-deterministic; quick runs all scripts of <= 2 reads and a seeded thirtieth of the 3-read ones); the real ParseFile / InterpretFile / UnmarshalFile run on a FileInput playing the "
                 "script, with and without jitter at the hook points: must return within the watchdog with a class the model allows, Close exactly once at quiescence, "
                 "no goroutine of package bcl left, <= 3 reads after the failure. Non-trivial = scripts of >= 2 reads; distinct by script.")
     run.assumptions += ["bounded time on the real code is a 3 s watchdog, not a proof", "schedules of the real goroutines are sampled (jitter at hook points), not enumerated"]
     mc_pipeline(run, 2 if run.quick else 3, 2)
-    c = "SPECIFICATION Spec\nCONSTANTS MaxReads = 2  TokBuf = 2  EmptyIsEOF = FALSE\nINVARIANT Emit\nCHECK_DEADLOCK FALSE\n"
-    run.gen_replay("Gen_Pipe", c, ["replay-pipe", "--reps", "6" if run.quick else "30", "--seed", str(run.seed)], "C11:scripts")
+    c = "SPECIFICATION Spec\nCONSTANTS MaxReads = 3  TokBuf = 2  EmptyIsEOF = FALSE\nINVARIANT Emit\nCHECK_DEADLOCK FALSE\n"
+    run.gen_replay("Gen_Pipe", c, ["replay-pipe", "--reps", "6" if run.quick else "12", "--seed", str(run.seed), "--stride", "30" if run.quick else "2"], "C11:scripts", workers=8)
     tv_pipe(run, "C11:tv", 60 if run.quick else 400, ("CloseAtMostOnce",))
     run.exhaustive = True
 
@@ -350,7 +405,8 @@ def c19(run):
                 "decoded real dump: one disassembly line per instruction at its offset with the right mnemonic, one trace pair per executed instruction (offset, mnemonic, "
                 "operand depth), as many as xstats.opsRead, counters as the machine computes them. Non-trivial = every program (distinct by source).")
     q = run.quick
-    srcs = [("Gen_Prog", gen_cfg(dict(Scope="bind", MaxItems=3)), {}),
+    srcs = [("Gen_Total", cfg(constants=dict(Scope="varscale", MaxLen=1), invariants=("Emit",)), {}),
+            ("Gen_Prog", gen_cfg(dict(Scope="bind", MaxItems=3)), {}),
             ("Gen_Prog", gen_cfg(dict(Scope="blocks", MaxItems=2)), {}),
             ("Gen_Expr", gen_cfg(dict(Scope="types", ShapeLeaves=3)), {}),
             ("Gen_Gram", gen_cfg(dict(Scope="all", MaxLen=3)), {}),
@@ -437,6 +493,7 @@ def c08(run):
     else:
         run.traces += n
         run.extra["diagnostics_located"] = (s.get("extra") or {}).get("diagnostics", 0)
+    chk_comp(run, "C08:comp", 1200 if run.quick else 12000, ("diagloc-mismatch", "lfs-mismatch"), seed_off=8)
     run.exhaustive = False
 
 
@@ -455,7 +512,7 @@ def c14(run):
     run.vh(["corpus-check", "--dir", os.path.join(vlib.VERIF, "corpus")], "C14:corpus")
     c = cfg(constants=dict(StackSize=1024, BlockStackSize=16, MaxInstr=3 if run.quick else 4), invariants=("Emit",))
     run.gen_replay("Gen_ISA", c, ["replay-isa"], "C14:isa")
-    dumps, n = real_dumps(run, "C14:real", dump_sources(run)[:3], 1500 if run.quick else 12000, stride=11 if run.quick else 3)
+    dumps, n = real_dumps(run, "C14:real", dump_sources(run)[1:4], 1500 if run.quick else 12000, stride=11 if run.quick else 3)
     tlc_on_dumps(run, "C14:layout", dumps, n, ("RoundTrip",))
     run.exhaustive = False
 
@@ -466,11 +523,12 @@ def c16(run):
                 "(the inputs whose outcome depends on map order in an order-sensitive implementation), programs of the C02/C04 families and rejected token "
                 "strings with several diagnostics. Each call is repeated R times in one process (R=12 quick, 30 thorough): error text, target, dump bytes, output, "
                 "diagnostics, blocks and binding must be identical, the dump must be unchanged by Execute and a second Execute must agree; then three fresh "
-                "processes with GOMAXPROCS 1, 4, 16 must produce the same digest for every case. Non-trivial = sens for bind cases, the family's rule otherwise.")
+                "processes with GOMAXPROCS 1, 4, 16 (one of them running the calls in the opposite order) must produce the same digest for every case; declared types of the same name with different tags are among the targets; every 3-read reader script must give ParseFile the single return class the pipeline model allows. Non-trivial = sens for bind cases, the family's rule otherwise.")
     reps = 12 if run.quick else 30
     import os
     digs = []
-    stages = [("Gen_Bind", gen_cfg(dict(Scope="fields", MaxFields=2, Small=True)), "C16:bind", None),
+    stages = [("Gen_Bind", gen_cfg(dict(Scope="targets", MaxFields=2, Small=True)), "C16:bind-types", None),
+              ("Gen_Bind", gen_cfg(dict(Scope="fields", MaxFields=2, Small=True)), "C16:bind", None),
               ("Gen_Prog", gen_cfg(dict(Scope="bind", MaxItems=3)), "C16:prog-bind", None),
               ("Gen_Prog", gen_cfg(dict(Scope="blocks", MaxItems=2)), "C16:prog-blocks", None),
               ("Gen_Gram", gen_cfg(dict(Scope="recover", MaxLen=3), invariants=("EmitR",)), "C16:diagnostics", None)]
@@ -489,22 +547,29 @@ def c16(run):
             raise Inconclusive("generator failed in " + stage)
         d0 = path + ".dig0"
         run.vh(["replay-det", "--reps", str(reps), "--digests", d0], stage + ":replay", input_path=path)
-        ref = open(d0).read()
+        ref = sorted(open(d0).read().splitlines())
         for procs in (1, 4, 16):
             d = path + ".dig%d" % procs
             exe = vlib.build_harness()
             env = dict(os.environ, GOMAXPROCS=str(procs))
-            pr = subprocess.run([exe, "replay-det", "--reps", "1", "--digests", d, "--in", path, "--result", path + ".r%d" % procs], env=env,
+            # the 4-CPU process runs the calls in the opposite order (no dependence on earlier calls in the process)
+            extra = ["--reverse", "1"] if procs == 4 else []
+            pr = subprocess.run([exe, "replay-det", "--reps", "1", "--digests", d, "--in", path, "--result", path + ".r%d" % procs] + extra, env=env,
                                 stdout=subprocess.PIPE, stderr=subprocess.STDOUT, text=True)
             if pr.returncode != 0:
                 raise Inconclusive("digest worker failed: " + pr.stdout[-2000:])
-            if open(d).read() != ref:
-                a, b = ref.splitlines(), open(d).read().splitlines()
-                diff = [x for x, y in zip(a, b) if x != y][:3]
+            got = sorted(open(d).read().splitlines())
+            if got != ref:
+                a, b = ref, got
+                diff = [x + " vs " + y for x, y in zip(a, b) if x != y][:3]
                 run.violations.append(dict(why="outcome digest differs between processes (GOMAXPROCS=%d)" % procs, shape="nondeterministic:process",
                                            case=dict(stage=stage, digests=diff), observed=diff, confirmed=True, stage=stage))
         run.extra.setdefault("fresh_process_runs", 0)
         run.extra["fresh_process_runs"] += 3
+    # the file variants: the model gives every reader script exactly one return class, so the real calls must not vary between runs
+    c = "SPECIFICATION Spec\nCONSTANTS MaxReads = 3  TokBuf = 2  EmptyIsEOF = FALSE\nINVARIANT Emit\nCHECK_DEADLOCK FALSE\n"
+    run.gen_replay("Gen_Pipe", c, ["replay-pipe", "--reps", "8" if run.quick else "40", "--seed", str(run.seed + 5), "--stride", "60" if run.quick else "4", "--minreads", "3"],
+                   "C16:pipeline", workers=8)
     run.exhaustive = False
 
 
